@@ -1,9 +1,10 @@
 PROP = dict(
   units=['he:dyn_init_B0_K1,dyn_init_B1_K1,dyn_init_B2_K1,dyn_init_B1_K2,dyn_init_B2_K2,slots_rel_init_K2,slots_rel_init_K3', 'tbl', 'hpscan:hp_balance,he_balance,hp_dtor,he_dtor,hp_scan,he_scan', 'ebr:acquire_cb_all,acquire_cb_n1,acquire_cb_int,scan_all,scan_all_int,scan_n1,scan_n2,scan_n2_int,scan_n3,dtor_none,dtor_eager,dtor_lazy,update_global_epoch,update_global_epoch_int',
-         'qsbr:ensure,ensure_int,try_update,try_update_int,dtor,adopt', 'hp:init_k1,init_k2,init_k3,init_k5,dyn_k1_b2,dyn_k2_b2'],
+         'qsbr:ensure,ensure_int,try_update,try_update_int,dtor,adopt', 'hp:init_k1,init_k2,init_k3,init_k5,dyn_k1_b2,dyn_k2_b2',
+         'lfrc:tl_dtor,tl_push,tl_pop,fl_push,add_nodes,add_nodes_int', 'stampit_guard:dtor', 'rlist:orphan_dtor,ol_add,ol_adopt'],     # what an exiting thread hands over: lfrc's thread-local free list, stamp-it's local retire list, orphans
   level='other',
   strict_obligations=True,
-  obligations=['he.initialize.all_free',
+  obligations=['he.initialize.all_free', 'lfrc.freelist.conserve', 'lfrc.freelist.push_links', 'stamp.dtor.hands_over_all', 'stamp.conserve', 'rlist.orphans.add.commit', 'rlist.orphans.adopt.atomic', 'rlist.orphan.dtor.deletes_all', 'rlist.conserve',
                'tbl.*', 'hpscan.active_hps.balanced', 'hpscan.dtor.releases_record', 'hpscan.skips_inactive', 'hpscan.dtor.hands_over_all',
                'ebr.adopt.reinit', 'ebr.dtor.releases_record', 'ebr.dtor.hands_over_all', 'ebr.scan.exact', 'ebr.scan.prefix_valid', 'ebr.advance.after_scan', 'ebr.orphans.slot',
                'qsbr.adopt.reinit', 'qsbr.advance.all_quiescent', 'qsbr.dtor.hands_over_all', 'qsbr.dtor.releases_record', 'qsbr.orphans.target_epoch',
